@@ -4,8 +4,10 @@
    (src/decode/bc7.rs, src/decode/bcn_util.rs; tables regenerated into gen/GenBC.v).
    Specifications: spec/SpecBC.v (exact interpolation rounded to nearest), the specification-shaped BC7
    decoder `bc7_spec` of model/BC7.v over the frozen tables of spec/SpecBC7Tables.v.
-   NOT covered here: BC6H, the F32 output precision (see DESIGN.md). *)
-From DDSV Require Import base.Machine model.Numeric model.BCdec model.BC7 gen.GenBC spec.SpecBC spec.SpecBC7Tables proofs.BCProofs proofs.BC7Proofs.
+   BC6H: model/BC6.v (src/decode/bc6.rs; bit layout regenerated into gen/GenBC6.v), proofs/BC6Proofs.v.
+   F32 outputs: model/BCF32.v over the IEEE model of C04; compared bit for bit, palette entries are correctly
+   rounded quotients by definition of the model.  NOT covered: the blue channel BC3_UNORM_NORMAL reconstructs. *)
+From DDSV Require Import base.Machine model.Numeric model.BCdec model.BC7 model.BC6 gen.GenBC gen.GenBC6 spec.SpecBC spec.SpecBC7Tables spec.SpecBC6Tables proofs.BCProofs proofs.BC7Proofs proofs.BC6Proofs.
 
 (* BC1: for every pair of 16-bit endpoints, in both modes, every channel of every palette entry is the exact
    interpolation (2/3-1/3 or 1/2-1/2 of the 5/6-bit UNORM fields) rounded to the nearest 8-bit value; the mode
@@ -66,6 +68,26 @@ Proof. intros b. exact (reserved_mode_zero _ _ _ _ _ b). Qed.
 Theorem C03_bc7_mode_prefix : forall b, le128 b mod 256 <> 0 -> tz 8 (le128 b mod 256) < 8.
 Proof. exact mode_is_unary_prefix. Qed.
 
+(* BC6H: the bit layout the implementation uses now is the specification's; its structure (every bit of every
+   endpoint component assigned exactly once with the mode's widths, header of 128 - 46 - 5 - mode bits); reserved
+   modes give zero; interpolation rounds the weighted average to nearest; unquantisation ends and symmetry *)
+Theorem C03_bc6_tables : bc6_two_fields = spec_bc6_two_fields.
+Proof. exact bc6_tables_tie. Qed.
+Theorem C03_bc6_tables_structure :
+  length spec_bc6_two_fields = 10%nat /\ forallb mode_ok spec_bc6_two_fields = true /\
+  map fst spec_bc6_two_fields = [0; 1; 2; 6; 10; 14; 18; 22; 26; 30]%N.
+Proof. exact bc6_tables_structure. Qed.
+Theorem C03_bc6_reserved_zero : forall ft p2 signed b, (Z.of_N (le128 b) mod 4 = 3)%Z -> (4 <= (Z.of_N (le128 b) / 4) mod 8)%Z ->
+  bc6_decode_with ft p2 signed b = zero_block.
+Proof. exact bc6_reserved_zero. Qed.
+Theorem C03_bc6_interp_nearest : forall a b w, (0 <= w <= 64)%Z ->
+  let v := Z.shiftr (a * (64 - w) + b * w + 32) 6 in (64 * v <= a * (64 - w) + b * w + 32 < 64 * v + 64)%Z.
+Proof. exact bc6_interp_nearest. Qed.
+Theorem C03_bc6_unquantize_ends : forall bits, (1 <= bits < 15)%Z ->
+  unquantize false 0 bits = 0%Z /\ unquantize false (2 ^ bits - 1) bits = 65535%Z /\
+  (forall c, unquantize true (- c) (bits + 1) = (- unquantize true c (bits + 1))%Z).
+Proof. exact bc6_unquantize_ends. Qed.
+
 (* non-vacuity: the F7 block (BC3 colour half with colour0 <= colour1) decodes with four colours; a BC7 mode-6 block *)
 Example C03_ex_f7 : firstn 4 (bc3_u8 [255; 255; 0; 0; 0; 0; 0; 0; 0; 0; 255; 255; 228; 0; 0; 0]) =
   [[0; 0; 0; 255]; [255; 255; 255; 255]; [85; 85; 85; 255]; [170; 170; 170; 255]].
@@ -75,5 +97,6 @@ Proof. vm_compute. reflexivity. Qed.
 
 Definition C03_all := (C03_bc1_palette, C03_bc1_pixels, C03_bc23_always_four_colour, C03_bc2_alpha_exact, C03_bc4u_palette,
   C03_bc4s_palette, C03_bc4_pixels, C03_widen_exact, C03_bc7_model_eq_spec, C03_bc7_tables, C03_bc7_weights,
-  C03_bc7_interp_nearest, C03_bc7_interp_no_wrap, C03_bc7_reserved, C03_bc7_mode_prefix, tables_structure).
+  C03_bc7_interp_nearest, C03_bc7_interp_no_wrap, C03_bc7_reserved, C03_bc7_mode_prefix, tables_structure,
+  C03_bc6_tables, C03_bc6_tables_structure, C03_bc6_reserved_zero, C03_bc6_interp_nearest, C03_bc6_unquantize_ends).
 Redirect "props/C03.assumptions" Print Assumptions C03_all.
